@@ -254,3 +254,10 @@ func Catch(f func()) (p any) {
 	f()
 	return nil
 }
+
+// TB is the subset of testing.TB that both *testing.T and *rapid.T provide.
+type TB interface {
+	Fatalf(format string, args ...any)
+	Logf(format string, args ...any)
+	Helper()
+}
